@@ -460,29 +460,52 @@ Proof.
     + intros H. injection H as -> ->. reflexivity.
 Qed.
 
-Lemma n0_scan_cons w ecls not_e pe u R fe fn c :
-  u < pe -> nth_error w u = Some c ->
-  n0_scan w ecls not_e pe (u :: R) fe fn
+Lemma n0_scan_cons (lg : bool) ocw w ecls not_e pe u R fe fn o c :
+  u < pe -> nth_error ocw u = Some o -> removed_by_x9 o && negb lg = false ->
+  nth_error w u = Some c ->
+  n0_scan lg ocw w ecls not_e pe (u :: R) fe fn
   = if fst (scan_step c ecls not_e fe fn) then Ok (scan_step c ecls not_e fe fn)
-    else n0_scan w ecls not_e pe R (fst (scan_step c ecls not_e fe fn)) (snd (scan_step c ecls not_e fe fn)).
+    else n0_scan lg ocw w ecls not_e pe R (fst (scan_step c ecls not_e fe fn)) (snd (scan_step c ecls not_e fe fn)).
 Proof.
-  intros Hu Hn. cbn [n0_scan].
+  intros Hu Ho Hs Hn. cbn [n0_scan].
   destruct (Nat.leb_spec pe u) as [H|_]; [lia|].
+  rewrite (get_nth 326 ocw u o Ho). cbn [bind]. rewrite Hs.
   rewrite (get_nth 325 w u c Hn). cbn [bind]. unfold scan_step.
   destruct (c =c ecls); [reflexivity|]. destruct (c =c not_e); [destruct fe; reflexivity|].
   destruct ((c =c EN) || (c =c AN)); [destruct (ecls =c L); [destruct fe|]; reflexivity|].
   destruct fe; reflexivity.
 Qed.
 
-Lemma n0_scan_block w ecls not_e pe c R : forall l fe fn,
-  (forall u, In u l -> nth_error w u = Some c /\ u < pe) -> l <> [] ->
-  n0_scan w ecls not_e pe (l ++ R) fe fn
-  = if fst (scan_step c ecls not_e fe fn) then Ok (scan_step c ecls not_e fe fn)
-    else n0_scan w ecls not_e pe R (fst (scan_step c ecls not_e fe fn)) (snd (scan_step c ecls not_e fe fn)).
+Lemma n0_scan_skip (lg : bool) ocw w ecls not_e pe u R fe fn o :
+  u < pe -> nth_error ocw u = Some o -> removed_by_x9 o && negb lg = true ->
+  n0_scan lg ocw w ecls not_e pe (u :: R) fe fn = n0_scan lg ocw w ecls not_e pe R fe fn.
 Proof.
-  induction l as [|u l IH]; intros fe fn H Hl; [congruence|].
+  intros Hu Ho Hs. cbn [n0_scan].
+  destruct (Nat.leb_spec pe u) as [H|_]; [lia|].
+  rewrite (get_nth 326 ocw u o Ho). cbn [bind]. rewrite Hs. reflexivity.
+Qed.
+
+Lemma n0_scan_skip_block (lg : bool) ocw w ecls not_e pe o R fe fn :
+  removed_by_x9 o && negb lg = true -> forall l,
+  (forall u, In u l -> nth_error ocw u = Some o /\ u < pe) ->
+  n0_scan lg ocw w ecls not_e pe (l ++ R) fe fn = n0_scan lg ocw w ecls not_e pe R fe fn.
+Proof.
+  intros Hs. induction l as [|u l IH]; intros H; [reflexivity|].
   destruct (H u (or_introl eq_refl)) as [H1 H2].
-  cbn [app]. rewrite (n0_scan_cons w ecls not_e pe u (l ++ R) fe fn c H2 H1).
+  cbn [app]. rewrite (n0_scan_skip lg ocw w ecls not_e pe u (l ++ R) fe fn o H2 H1 Hs).
+  apply IH. intros u0 Hu0. apply H. right. exact Hu0.
+Qed.
+
+Lemma n0_scan_block (lg : bool) ocw w ecls not_e pe o c R :
+  removed_by_x9 o && negb lg = false -> forall l fe fn,
+  (forall u, In u l -> nth_error ocw u = Some o /\ nth_error w u = Some c /\ u < pe) -> l <> [] ->
+  n0_scan lg ocw w ecls not_e pe (l ++ R) fe fn
+  = if fst (scan_step c ecls not_e fe fn) then Ok (scan_step c ecls not_e fe fn)
+    else n0_scan lg ocw w ecls not_e pe R (fst (scan_step c ecls not_e fe fn)) (snd (scan_step c ecls not_e fe fn)).
+Proof.
+  intros Hs. induction l as [|u l IH]; intros fe fn H Hl; [congruence|].
+  destruct (H u (or_introl eq_refl)) as (H0 & H1 & H2).
+  cbn [app]. rewrite (n0_scan_cons lg ocw w ecls not_e pe u (l ++ R) fe fn o c H2 H0 Hs H1).
   destruct (scan_step c ecls not_e fe fn) as [fe' fn'] eqn:Es. cbn [fst snd].
   destruct fe'; [reflexivity|].
   destruct l as [|u' l']; [reflexivity|].
@@ -490,8 +513,8 @@ Proof.
   rewrite (scan_step_idem _ _ _ _ _ _ Es). reflexivity.
 Qed.
 
-Lemma n0_scan_stop w ecls not_e pe u R fe fn :
-  pe <= u -> n0_scan w ecls not_e pe (u :: R) fe fn = Ok (fe, fn).
+Lemma n0_scan_stop (lg : bool) ocw w ecls not_e pe u R fe fn :
+  pe <= u -> n0_scan lg ocw w ecls not_e pe (u :: R) fe fn = Ok (fe, fn).
 Proof.
   intros H. cbn [n0_scan]. destruct (Nat.leb_spec pe u) as [_|H']; [reflexivity | lia].
 Qed.
@@ -706,25 +729,34 @@ Proof.
     rewrite Hv', HL, expand_app by lia. reflexivity.
 Qed.
 
-Lemma n0_scan_sim v ecls not_e pe : length v = k -> forall idxs fe fn r,
+Lemma n0_scan_sim (lg : bool) oc v ecls not_e pe : length oc = k -> length v = k ->
+  forall idxs fe fn r,
   Forall (fun i => i < k) idxs ->
-  n0_scan v ecls not_e pe idxs fe fn = Ok r ->
-  n0_scan (E v) ecls not_e (U pe) (X lens idxs) fe fn = Ok r.
+  n0_scan lg oc v ecls not_e pe idxs fe fn = Ok r ->
+  n0_scan lg (E oc) (E v) ecls not_e (U pe) (X lens idxs) fe fn = Ok r.
 Proof.
-  intros Hl. induction idxs as [|i rest IH]; intros fe fn r Hf H; [exact H|].
+  intros Hoc Hl. induction idxs as [|i rest IH]; intros fe fn r Hf H; [exact H|].
   inversion Hf as [|? ? Hi Hf']; subst.
   rewrite X_cons.
   destruct (Nat.leb_spec pe i) as [Hpe|Hpe].
   - rewrite n0_scan_stop in H by exact Hpe. rewrite units_head by exact Hi. cbn [app].
     rewrite n0_scan_stop; [exact H|]. apply ustart_le. exact Hpe.
   - destruct (nth_error v i) as [c|] eqn:Hc; [|apply nth_error_None in Hc; lia].
-    rewrite (n0_scan_cons v ecls not_e pe i rest fe fn c Hpe Hc) in H.
-    rewrite (n0_scan_block (E v) ecls not_e (U pe) c).
-    + destruct (fst (scan_step c ecls not_e fe fn)); [exact H|]. apply IH; assumption.
-    + intros u Hu. split; [eapply units_val; eauto|].
-      apply units_in in Hu; [|exact Hi].
-      pose proof (ustart_le lens (S i) pe ltac:(lia)). lia.
-    + apply units_nonnil, Hi.
+    destruct (nth_error oc i) as [o|] eqn:Ho; [|apply nth_error_None in Ho; lia].
+    assert (Hlt : forall u, In u (units lens i) -> u < U pe).
+    { intros u Hu. apply units_in in Hu; [|exact Hi].
+      pose proof (ustart_le lens (S i) pe ltac:(lia)). lia. }
+    destruct (removed_by_x9 o && negb lg) eqn:Es.
+    + rewrite (n0_scan_skip lg oc v ecls not_e pe i rest fe fn o Hpe Ho Es) in H.
+      rewrite (n0_scan_skip_block lg (E oc) (E v) ecls not_e (U pe) o _ fe fn Es).
+      * apply IH; assumption.
+      * intros u Hu. split; [eapply units_val; eauto | apply Hlt, Hu].
+    + rewrite (n0_scan_cons lg oc v ecls not_e pe i rest fe fn o c Hpe Ho Es Hc) in H.
+      rewrite (n0_scan_block lg (E oc) (E v) ecls not_e (U pe) o c _ Es).
+      * destruct (fst (scan_step c ecls not_e fe fn)); [exact H|]. apply IH; assumption.
+      * intros u Hu. split; [eapply units_val; eauto|].
+        split; [eapply units_val; eauto | apply Hlt, Hu].
+      * apply units_nonnil, Hi.
 Qed.
 
 (* ---- index iterators ---- *)
@@ -1280,7 +1312,7 @@ Lemma n0_pair_eq e0 text0 sq oc ecls not_e pc pair :
   (sub <- t_subrange 311 e0 text0 (bp_start pair) (bp_end pair) ;;
    start_char_len <- first_char_len e0 311 sub ;;
    fw <- iter_forwards_from (irs_runs sq) (bp_start pair + start_char_len) (bp_start_run pair) ;;
-   fef <- n0_scan pc ecls not_e (bp_end pair) fw false false ;;
+   fef <- n0_scan false oc pc ecls not_e (bp_end pair) fw false false ;;
    class_to_set <- n0_class sq pc ecls pair (fst fef) (snd fef) ;;
    n0_apply e0 text0 sq oc pc pair start_char_len class_to_set).
 Proof.
@@ -1289,7 +1321,7 @@ Proof.
   destruct (first_char_len e0 311 a); [|reflexivity]. cbn [bind].
   destruct (iter_forwards_from (irs_runs sq) (bp_start pair + a0) (bp_start_run pair)); [|reflexivity].
   cbn [bind].
-  destruct (n0_scan pc ecls not_e (bp_end pair) a1 false false) as [[fe fn]|]; reflexivity.
+  destruct (n0_scan false oc pc ecls not_e (bp_end pair) a1 false false) as [[fe fn]|]; reflexivity.
 Qed.
 
 Lemma n0_class_sim sq pc ecls pair fe fn cts : length pc = k -> seq_in k sq -> bp_start pair <= k ->
@@ -1362,7 +1394,7 @@ Proof.
   replace (U (bp_start pair) + nth (bp_start pair) lens 0) with (U (bp_start pair + 1))
     by (rewrite Nat.add_1_r, ustart_S by exact Ha; reflexivity).
   rewrite (iter_forwards_sim lens _ _ _ _ Hrle Hfw). cbn [bind].
-  rewrite (n0_scan_sim lens lens_pos pc ecls not_e _ Hl _ _ _ _ (iter_forwards_lt lens _ _ _ _ Hrle Hfw) Hscan).
+  rewrite (n0_scan_sim lens lens_pos false oc pc ecls not_e _ Hoc Hl _ _ _ _ (iter_forwards_lt lens _ _ _ _ Hrle Hfw) Hscan).
   cbn [bind].
   pose proof (n0_class_sim sq pc ecls pair _ _ _ Hl Hsq (Nat.lt_le_incl _ _ Ha) Hcts) as Hc.
   cbn [useq upair] in Hc. rewrite Hc. cbn [bind].
